@@ -335,6 +335,11 @@ namespace Dune
     {
       static_assert(r == c, "Cannot rightmultiply with non-square matrix");
       static_assert(r == cols, "Size mismatch");
+      if (static_cast<const void*>(&M) == static_cast<const void*>(this)) {
+        // M is this matrix itself: multiply with a copy, the loop below overwrites the entries it reads from M
+        const FieldMatrix<K,r,c> Mcopy(M);
+        return rightmultiply(Mcopy);
+      }
       FieldMatrix<K,rows,cols> C(*this);
 
       for (size_type i=0; i<rows; i++)
